@@ -109,11 +109,21 @@ def multichain_force_fanout(A):
             c = calls[0]
             ba = bound_args(c, cforce) or {}
             first = ba.get(cforce.params[1]) if cforce is not None and len(cforce.params) > 1 else (c.args[0] if c.args else None)
+            # by value: the request itself, or a materialised copy of it (list(tasks), tuple(tasks), [t for t in tasks]) - also through a local
+            from ..terms import cond_leaves as _leaves
+            tp0 = ('p', tparam)
+
+            def _is_request(leaf):
+                if leaf in (tp0, ('call', 'list', (tp0,)), ('call', 'tuple', (tp0,))):
+                    return True
+                return leaf[0] == 'map' and len(leaf[1]) == 1 and leaf[2] == leaf[1][0] and leaf[3] == tp0 and leaf[4] is None
+            alts0 = [leaf for t_ in A.sym.terms_at(ff, ('inst', mc), [first]).get(id(first), []) for leaf in _leaves(t_)] if first is not None else []
+            first_is_request = first is not None and (src(first) == tparam or (bool(alts0) and all(_is_request(l_) for l_ in alts0)))
             if kwname is not None:
-                same = first is not None and src(first) == tparam and '**' in ba and src(ba['**']) == kwname and set(ba) <= {cforce.params[1], '**'}
+                same = first_is_request and '**' in ba and src(ba['**']) == kwname and set(ba) <= {cforce.params[1], '**'}
             else:
                 # explicit flags: each forwarded to the parameter of the same name
-                same = first is not None and src(first) == tparam and all(isinstance(v, ast.Name) and v.id == k and k in ff.params for k, v in ba.items() if k != cforce.params[1]) \
+                same = first_is_request and all(isinstance(v, ast.Name) and v.id == k and k in ff.params for k, v in ba.items() if k != cforce.params[1]) \
                     and all(p in ba for p in ff.params[2:])
             stored = {n.id for n in A.typer.own_nodes(ff) if isinstance(n, ast.Name) and isinstance(n.ctx, ast.Store)}
             if tparam in stored and first is not None:
@@ -121,7 +131,7 @@ def multichain_force_fanout(A):
                 from ..terms import cond_leaves
                 tp_ = ('p', tparam)
                 alts = [leaf for t_ in A.sym.terms_at(ff, ('inst', mc), [first]).get(id(first), []) for leaf in cond_leaves(t_)]
-                if alts and all(leaf in (tp_, ('call', 'list', (tp_,)), ('call', 'tuple', (tp_,))) for leaf in alts):
+                if alts and all(_is_request(leaf) for leaf in alts):
                     stored.discard(tparam)
             reassigned = bool(stored & ({tparam, kwname} | set(ff.params[2:]))) or \
                 any(isinstance(n, (ast.Subscript, ast.Attribute)) and isinstance(n.ctx, (ast.Store, ast.Del)) and src(n.value) in (tparam, kwname) for n in A.typer.own_nodes(ff))
